@@ -308,6 +308,7 @@ def run_metric(ctx, scratch, rng, quick):
         # model dead (recorded in ctx.proof_broken): the implementation is still judged by the textbook double sum
         vals = [None] * len(cases)
     # ---- implementation + oracle
+    src_cases = []
     with Impl(scratch) as impl:
         for k, (c, v) in enumerate(zip(cases, vals)):
             args = dict(m=mspec(c['nr'], c['nc'], c['triples']), labels=c['labels'], labels_col=c['labels_col'],
@@ -361,6 +362,34 @@ def run_metric(ctx, scratch, rng, quick):
                               oracle='metric_value', **fields)
             if k % 1500 == 0:
                 ctx.sample(dict(kind='modularity', family=c['fam'], args=args, model=[mod, fit, div], impl=r.get('ok')))
+            if c['return_all'] and c['nr'] == c['nc'] and c['nr'] <= 8 and len(src_cases) < (60 if ctx.tier == 'quick' else 400) \
+                    and all(x >= 0 for x in c['labels']):
+                src_cases.append((c, args, r['ok']))
+    # ---- the terms regenerated from metrics.py (Gen/NpModularity.v; theorem source_modularity_def of Props/C06.v) evaluated inside
+    #      Coq over exact rationals with the array semantics of Model/NpVec.v must reproduce the implementation's (mod, fit, div)
+    src_exprs = []
+    for (c, args, got) in src_cases:
+        n = c['nr']
+        dense = [[Fraction(0)] * n for _ in range(n)]
+        for (i, j, w) in c['triples']:
+            dense[i][j] += Fraction(w)
+        env = '(qenv_modularity %s %d %s %s %s)' % (clist(dense, lambda row: clist(row, cq)), n,
+                                                   clist(c['labels'], lambda z: '(%d)%%Z' % z),
+                                                   'true' if c['weights'] == 'degree' else 'false', cq(c['gamma']))
+        src_exprs.append('map qz3 (qsresult (qvdenote %s src_modularity_mod) ++ qsresult (qvdenote %s src_modularity_fit) ++ '
+                         'qsresult (qvdenote %s src_modularity_div))' % (env, env, env))
+    src_vals = safe_coq_eval(ctx, 'c06src', ['Base.Util', 'Model.NpExpr', 'Model.NpVec', 'Gen.NpModularity'], src_exprs,
+                             prelude='Definition qz3 (q : Q) : Z * Z := (Qnum q, Zpos (Qden q)).\n', shard=60) if src_exprs else []
+    n_src = 0
+    for (c, args, got), v in zip(src_cases, src_vals or []):
+        n_src += 1
+        ctx.count('source_term:get_modularity', ('src', args), True)
+        exp = [float(Fraction(x[0], x[1])) for x in v]
+        if len(exp) != 3 or not all(close(g, e, TOL64) for g, e in zip(got, exp)):
+            ctx.violation('get_modularity', 'the terms regenerated from metrics.py (src_modularity_mod / _fit / _div), evaluated with the '
+                          'array semantics of Model/NpVec.v, differ from what the implementation returns', case=args, expected=exp,
+                          observed=got, oracle='source_term', family=c['fam'], weights=c['weights'])
+    ctx.extra['source_terms_evaluated'] = n_src
 
 
 # ------------------------------------------------------------------------------------------------
